@@ -314,11 +314,27 @@ def c05(prop, tier, seed):
                           e1e2(R, "MapAbs.tla", tag + ".cfg", "%s.km%d" % (tag, km), map_canon(dup), exe, env, D, budget, walks,
                                24, seed, workers=2)))
     vplib.parallel(tasks, max_workers=8)
+    # E3: traces over hundreds / thousands of keys (the table grows and is rehashed), validated by TLC against MapTrace.tla
+    d = vplib.rundir("c05.e3")
+    for suf, dtor, upd, dup in ([("duk", 1, 1, 1)] if quick else [("duk", 1, 1, 1), ("dfk", 1, 0, 1), ("nus", 0, 1, 0)]):
+        tr = os.path.join(d, "map_%s.ndjson" % suf)
+        env = {"VP_DTOR": str(dtor), "VP_UPDATE": str(upd), "VP_DUP": str(dup)}
+        info = run_tracer(R, exe, ["--trace", tr, seed, 500 if quick else 1400, 2200 if quick else 6000], env, "MapTrace_" + suf)
+        if info is None:
+            continue
+        if info.get("outstanding", 0) != 0:
+            R.mismatch("MapTrace_%s:leak" % suf, tr, "allocator ledger: %s blocks outstanding after the map was freed" % info["outstanding"])
+        e3_validate(R, "MapTrace.tla", "MapTrace_%s%s.cfg" % (suf, "_q" if quick else ""), tr, "MapTrace_" + suf, timeout=1500)
+        lines = open(tr).read().splitlines()
+        R.samples.append({"trace_excerpt": [json.loads(x) for x in lines[300:302]]})
+    vplib.cleanup(d)
     R.rule = ("programs = edge sequences of the dumped TLC graph of MapAbs.tla (3 keys x 3 values, flag combinations) replayed "
               "with 5 key sets: plain, all keys in one home slot, and three sets homed at slots 254/255/0 so that clusters wrap "
               "around the table end; all maximal paths of <= %d mutating steps with all queries at every node, edge cover, "
               "random walks; iteration order is a library choice followed by observation; non-trivial = >= 2 keys present and "
-              "an entry removed during an iteration" % D)
+              "an entry removed during an iteration. Plus recorded traces of random put/get/contains/remove/clear, callback iteration removing "
+              "a residue class of keys and iterator sweeps with removal over 500 (quick) / 1400 (thorough) keys - the table is rehashed 1-3 times - "
+              "validated line by line by TLC against MapTrace.tla" % D)
     R.assumptions = ["no mutation behind a live iterator except through it (precondition)", "ASan/UBSan + allocator ledger attached",
                      "adversarial keys are searched with a copy of the public hash function (coverage aid only)"]
     return R.finish()
@@ -645,3 +661,107 @@ def c04(prop, tier, seed):
                       "program retains events beyond their invocation (and beyond the stop / deregistration of their module and the release of "
                       "the context) and extra references on module objects (zombies), releasing them in any order; retained events are re-read "
                       "after every step.", Dq=5, Dt=6)
+
+
+# ------------------------------------------------------------------------------------------
+# C14 - contexts on different threads are independent; modules are thread-confined
+
+def static_inventory(R):
+    """Writable static-storage symbols of the library objects (no sanitizer) vs. the declaration in spec/SharedState.tla."""
+    d = vplib.rundir("c14.statics")
+    inc = []
+    for i in vplib.LIB_INC:
+        inc += ["-I", os.path.join(vplib.REPO, i)]
+    found = set()
+    for g in ("utils", "mem", "structs", "thpool", "core"):
+        for src in vplib.LIB_GROUPS[g][0]:
+            o = os.path.join(d, src.replace("Lib/", "").replace("/", "_") + ".o")
+            rc, out, _ = vplib.sh(["clang", "-std=gnu11", "-O1", "-D_GNU_SOURCE", "-w"] + inc + ["-c", os.path.join(vplib.REPO, src), "-o", o], timeout=120)
+            if rc != 0:
+                raise Broken("compile for static inventory failed: " + out[-500:])
+            rc, out, _ = vplib.sh(["nm", "--defined-only", o])
+            for line in out.splitlines():
+                f = line.split()
+                if len(f) == 3 and f[1] in "bBdDsScC":
+                    found.add((os.path.basename(o)[:-2], f[2]))
+    decl = set(re.findall(r'sym \|-> "([^"]+)",\s*obj \|-> "([^"]+)"', open(os.path.join(vplib.SPEC, "SharedState.tla")).read()))
+    decl = set((o, s) for (s, o) in decl)
+    vplib.cleanup(d)
+    R.extra["static_storage"] = {"found": sorted("%s:%s" % x for x in found), "declared": sorted("%s:%s" % x for x in decl)}
+    for obj, sym in sorted(found - decl):
+        rp = vplib.replay_path(R.prop, "static." + sym)
+        open(rp, "w").write("writable object with static storage duration not declared in spec/SharedState.tla: %s in %s\n"
+                            "(shared by every context of the process; declare its sharing discipline or make it per-context)\n" % (sym, obj))
+        R.mismatch("c14-undeclared-static:" + sym, rp, "undeclared shared mutable object %s (%s)" % (sym, obj))
+    return len(found)
+
+
+def tsan_threads(R, name, threads, walks, seed):
+    """Several threads, each with its own context, replay programs of one configuration concurrently under TSan."""
+    exe = vplib.build("drv_core_tsan", ["utils", "mem", "structs", "thpool", "core"], ["drv_core.c"], san="tsan", extra_ldflags=CORE_WRAPS)
+    mods, env = CORE_CFGS[name]
+    mp = int(env.get("VP_MAXPAY", "1"))
+    r = e1_dump(R, "CoreMC.tla", "Core_mc_%s.cfg" % name, name + ".tsan", workers=4)
+    if r is None:
+        return
+    d, (states, edges, inits) = r
+    table = os.path.join(d, "graph.tab")
+    vplib.write_table(table, states, edges, inits, core_canon(mods, mp, int(env.get("VP_NKEYS", "1"))))
+    rdir = os.path.join(vplib.VERIF, "replays")
+    e = {"VP_MODS": ",".join(mods), "VP_MAXPAY": str(mp), "VP_THREADS": str(threads), "TSAN_OPTIONS": "halt_on_error=0 exitcode=0 report_signal_unsafe=0"}
+    e.update(env)
+    rc, out, wall = vplib.sh([str(x) for x in [exe, table, rdir, R.prop + "." + name + ".tsan", 0, 0, walks, 40, seed]], env=e, timeout=1500)
+    vplib.cleanup(d)
+    races = re.findall(r"WARNING: ThreadSanitizer: ([^\n]*)\n(?:.*\n)*?SUMMARY: ThreadSanitizer: ([^\n]*)", out)
+    lib_races = [x for x in re.findall(r"SUMMARY: ThreadSanitizer: ([^\n]*)", out)]
+    seen = set()
+    for summ in lib_races:
+        key = re.sub(r"0x[0-9a-f]+", "", summ)
+        if key in seen:
+            continue
+        seen.add(key)
+        rp = vplib.replay_path(R.prop, name + ".tsan." + str(len(seen)))
+        open(rp, "w").write(out[-20000:])
+        R.mismatch("c14-tsan:" + re.sub(r"[^A-Za-z0-9_.]+", "-", key)[:80], rp, "ThreadSanitizer: " + summ[:200])
+    stats = None
+    for line in out.splitlines():
+        if line.startswith("MISMATCH "):
+            m = re.match(r"MISMATCH sig=(\S+) replay=(\S+) :: (.*)$", line)
+            if m:
+                R.mismatch(name + ".threads:" + m.group(1), m.group(2), m.group(3)[:300])
+        elif line.startswith("STATS "):
+            stats = json.loads(line[6:])
+    if stats is None and not lib_races and "MISMATCH" not in out:
+        raise Broken("threaded replay died (%s) rc=%s:\n%s" % (name, rc, out[-2000:]))
+    if stats:
+        with R.lock:
+            R.traces += stats["programs"]
+            R.evaluations += stats["steps"]
+            R.distinct_nontrivial += stats["programs"]
+            R.extra.setdefault("threaded_runs", []).append(dict(stats, config=name, wall_s=round(wall, 1)))
+
+
+@check("C14")
+def c14(prop, tier, seed):
+    R = Result(prop, tier, seed)
+    quick = tier == "quick"
+    # (c) structural: shared static storage is exactly what SharedState.tla declares
+    res = vplib.tlc("SharedState.tla", "SharedState.cfg", workers=1, timeout=120)
+    vplib.tlc_require_ok(res, "SharedState")
+    R.add_tlc(res, "SharedState")
+    static_inventory(R)
+    # (a) confinement: every module call from a foreign thread is refused with a permission error and has no effect
+    exe = build_core()
+    mods, env = CORE_CFGS["foreign"]
+    core_run(R, exe, "Core_mc_foreign.cfg", mods, env, 4 if quick else 5, 40000 if quick else 2000000, 1000 if quick else 50000, 30, seed)
+    # (b) independence: concurrent contexts each conform to the single-context spec, no unsynchronised access (TSan)
+    for name in (["ps2q"] if quick else ["ps2q", "life", "fdev", "pub2"]):
+        tsan_threads(R, name, 4 if quick else 8, 2000 if quick else 40000, seed)
+    R.exhaustive = False
+    R.rule = ("(a) programs over Core_mc_foreign: lifecycle calls from the owner interleaved with every module operation attempted from a foreign "
+              "thread (with / without a context of its own) on modules in every state: permission error, projection unchanged; (b) %s threads, "
+              "each with its own context, replay random programs of the pub/sub configuration(s) concurrently, each thread comparing its own "
+              "observations with the single-context spec after every step, under ThreadSanitizer; (c) inventory of writable static storage in "
+              "the library objects against spec/SharedState.tla. non-trivial = every program" % (4 if quick else 8))
+    R.assumptions = ["TSan observes the schedules the run happened to take", "task sources (thread pool) are not used in the threaded replay"]
+    return R.finish()
